@@ -244,4 +244,11 @@ theorem C09_source_skeletons_2 :
     Gen.Skel.Store_EnforceRetention = Expected.Skel.Store_EnforceRetention :=
   rfl
 
+/-- the receiving side: a file is verified in full before anything in the log is touched, and a
+    snapshot's purge of the older files comes after that (WriteLTXFileAt), then the apply -/
+theorem C09_source_skeletons_3 :
+    Gen.Skel.DB_WriteLTXFileAt = Expected.Skel.DB_WriteLTXFileAt ∧
+    Gen.Skel.DB_ApplyLTXNoLock = Expected.Skel.DB_ApplyLTXNoLock :=
+  ⟨rfl, rfl⟩
+
 end LiteFSVerif.C09
